@@ -555,7 +555,12 @@ class Date(FormattableMixin, date):
         if unit not in ["month", "quarter", "year"]:
             raise ValueError(f'Invalid unit "{unit}" for first_of()')
 
-        dt = cast("Self", getattr(self, f"_nth_of_{unit}")(nth, day_of_week))
+        try:
+            dt = cast("Self", getattr(self, f"_nth_of_{unit}")(nth, day_of_week))
+        except OverflowError:
+            # The occurrence would lie after the last supported date
+            dt = None
+
         if not dt:
             raise PendulumException(
                 f"Unable to find occurrence {nth}"
